@@ -385,17 +385,22 @@ def gen_long_line_case(rng):
         kind = rng.choice(kinds)
         pre = b"-1.5\t" if fmt == "arpa" else b""
         if kind == "word":
-            w = b"W" * max(1, L - len(pre) - (2 if fmt == "raw" else 0))
-            longword[0] = w if longword[0] is None or len(w) == len(longword[0]) else longword[0]
-            if w != longword[0]:
-                return long_line_annot(L) if fmt == "raw" else long_third(L)
+            n = max(3, L - len(pre) - (2 if fmt == "raw" else 0))
+            if n > 9000:
+                w = b"<" + b"W" * (n - 2) + b">"          # a very long tag: passes in every mode without a vocabulary entry
+            else:
+                w = b"W" * n
+                if longword[0] is None:
+                    longword[0] = w
+                elif w != longword[0]:
+                    return long_line_annot(L) if fmt == "raw" else long_third(L)
             line = pre + w + (b"\t7" if fmt == "raw" else b"")
         elif kind == "manywords":
-            body = L - len(pre) - (2 if fmt == "raw" else 0)
-            n = max(1, body // 2)
+            # an n-gram of several hundred words; the rest of the length is the annotation / third field
+            n = rng.choice([50, 200, 600])
             g = b" ".join(rng.choice(short_words[:2]) for _ in range(n))
-            g += b"b" * (body - len(g)) if body > len(g) else b""          # last word "a…bbb"/"b…bbb" may be unknown: fine
-            line = pre + g + (b"\t7" if fmt == "raw" else b"")
+            head = pre + g + (b"\t" if fmt == "raw" else b"\t-0.25")
+            line = head + (b"y" if fmt == "raw" else b" ") * max(0, L - len(head))
         elif kind == "annot":
             return long_line_annot(L)
         else:
@@ -689,14 +694,16 @@ def run(ctx):
     model_broken = None
     try:
         model = vlib.ocaml_model("C11")
-        mout = vlib.run_lines(model, set_cases + [model_line(c) for c in cases], timeout=900)
+        # the extracted list functions are not tail recursive: files of several hundred KB need more than the default 8 MB stack
+        big_stack = ("sh", "-c", 'ulimit -s unlimited 2>/dev/null || ulimit -s 1000000; exec "$0"')
+        mout = vlib.run_lines(model, set_cases + [model_line(c) for c in cases], timeout=900, prefix=big_stack)
         for c, a, b in zip(set_cases + cases, sout + impl_ans, mout):
             if a != b:
                 mismatches.append((c, a, b))
         # the structure-faithful model of the phrase graph search must agree with the decision procedure that the
         # byte comparison above ties to the tool
         pcases = [c for c in cases if c["phrase"] and sum(len(x) for x in c["sections"])]
-        pout = vlib.run_lines(model, [phrase_graph_line(c) for c in pcases], timeout=900)
+        pout = vlib.run_lines(model, [phrase_graph_line(c) for c in pcases], timeout=900, prefix=big_stack)
         for c, o in zip(pcases, pout):
             if o != "same":
                 mismatches.append((c, "graph-search model == derivable_b", o))
